@@ -322,6 +322,9 @@ def make_cases(rng, n_schemas: int, per_schema: int, depth: int = 3, foreign: in
             t = sg.namedtuple_type(depth - 1)
         elif c < 0.52:
             t = sg.typeddict_type(depth - 1)
+        elif c < 0.57:
+            # nested constant expressions (positions that never read their input) next to reading ones
+            t = T("tuplefix", [sg.const_type(), sg.scalar(), sg.const_type()][:rng.randrange(1, 4)])
         else:
             t = sg.gen_type()
         if t.kind == "none":
